@@ -418,7 +418,7 @@ func init() {
 		Assumptions: []string{"the seeded stream never repeats 32-byte windows"},
 		NumCases: func(tier string) int {
 			if tier == "thorough" {
-				return 80000
+				return 300000
 			}
 			return 400
 		},
